@@ -722,3 +722,23 @@ Proof.
 Qed.
 Theorem plain_roundtrip n v f j : plain n v -> jdump f false v = Ok j -> jparse f false j = Ok v.
 Proof. intros H. apply (nested_roundtrip n). apply plain_rtn. exact H. Qed.
+
+(* ================================================================== missing / null rows *)
+Lemma rows_null_is_empty f m :
+  jparse_grid (S f) ((s_ "rows", JNull) :: m) = jparse_grid (S f) ((s_ "rows", JArr []) :: m).
+Proof. reflexivity. Qed.
+
+Lemma assoc_app_none {A} k (m : list (str * A)) extra : assoc k (m ++ extra) = match assoc k m with Some x => Some x | None => assoc k extra end.
+Proof. induction m as [|[y w] m IH]; cbn [List.app assoc]; [reflexivity|]. destruct (str_eqb y k); [reflexivity|exact IH]. Qed.
+
+Lemma rows_missing_is_empty f m : assoc (s_ "rows") m = None ->
+  jparse_grid (S f) (m ++ [(s_ "rows", JArr [])]) = jparse_grid (S f) m.
+Proof.
+  intro H. cbn [jparse_grid]. rewrite !assoc_app_none. rewrite H.
+  destruct (assoc (s_ "meta") m) as [jm|]; [|reflexivity].
+  destruct jm; try reflexivity.
+  destruct (assoc (s_ "ver") m0) as [jv|]; [|reflexivity]. destruct jv; try reflexivity.
+  destruct (parse_ver s); cbn [bind]; [|reflexivity]. destruct (pre3_of s); cbn [bind]; [|reflexivity].
+  match goal with |- bind ?x _ = bind ?x _ => destruct x end; cbn [bind]; [|reflexivity].
+  destruct (assoc (s_ "cols") m) as [jc|]; [|reflexivity]. destruct jc; try reflexivity.
+Qed.
